@@ -38,6 +38,10 @@ def rtSizes (kind : String) (n : Nat) : Option Nat :=
   | "u64" | "i64" | "f64" => some 8
   | "bytes" => some (wsBytes n)
   | "string" => some (wsString n)
+  | "string_u2" => some (wsString (2 * n))
+  | "string_u3" => some (wsString (3 * n))
+  | "string_u4" => some (wsString (4 * n))
+  | "string_mix" => some (wsString (((List.range n).map fun i => i % 4 + 1).sum))
   | "vec_u8" => some (wsVec (List.replicate n 1))
   | "vec_u32" => some (wsVec (List.replicate n 4))
   | "vec_u64" => some (wsVec (List.replicate n 8))
